@@ -65,6 +65,8 @@ def process(input_name, enable_debug_db, arch, model_reader_options, compiler_op
     os.makedirs(compiler_options.output_dir, exist_ok=True)
     output_basename = os.path.join(compiler_options.output_dir, os.path.splitext(os.path.basename(input_name))[0])
     DebugDatabase.show_warnings = enable_debug_db
+    # Start from empty tables: main() may be called more than once in a process
+    DebugDatabase.clean_db()
 
     nng, network_type = model_reader.read_model(input_name, model_reader_options)
 
